@@ -83,6 +83,8 @@ class Facts(Walker):
                 out[k] = a | b
             elif a == b:
                 out[k] = a
+            elif k.startswith("b:"):
+                continue
             elif k.startswith(("v:", "s:")) and isinstance(a, str) and isinstance(b, str):
                 out[k] = _phi(a, b)
         out["C"] = s1.get("C", frozenset()) | s2.get("C", frozenset())
@@ -232,6 +234,12 @@ class Facts(Walker):
 
     def refine(self, test, st, truth):
         """add the facts implied by ``test`` being ``truth``"""
+        if isinstance(test, ast.Name):
+            # a boolean local holding a comparison:  at_pole = cos_lat == 0.0 ... if at_pole:
+            rec = st.get("b:" + test.id)
+            if rec is not None and self.vn(rec[0], st) == rec[1]:
+                return self.refine(rec[0], st, truth)
+            return
         if isinstance(test, ast.UnaryOp) and isinstance(test.op, ast.Not):
             return self.refine(test.operand, st, not truth)
         if isinstance(test, ast.BoolOp):
@@ -339,6 +347,10 @@ class Facts(Walker):
 
     def bind(self, t, value_node, val, st, stmt):
         if isinstance(t, ast.Name):
+            st.pop("b:" + t.id, None)
+            if isinstance(value_node, (ast.Compare, ast.BoolOp)) or (isinstance(value_node, ast.UnaryOp) and isinstance(value_node.op, ast.Not)) \
+                    or (isinstance(value_node, ast.Call) and (self.np_name(value_node.func) or "") in ("isclose", "allclose")):
+                st["b:" + t.id] = (value_node, self.vn(value_node, st))
             # facts about the right-hand side are derived in the state *before* the name is rebound
             unit = value_node is not None and self.is_unit(value_node, st)
             cplx = value_node is not None and self.is_complex(value_node, st)
